@@ -492,3 +492,42 @@ def stored_ref_lifetime(ctx, rule='stored-matrix-reference-outlives-its-argument
         raise AnalysisBroken('only %d Ref members analysed (expected >= %d)' % (n, min_instances))
     if nctl != 1:
         raise AnalysisBroken('positive control for the stored-reference rule not matched (%d)' % nctl)
+
+
+RAW_SPARSE = ('valuePtr', 'innerIndexPtr')
+
+
+def view_storage_scanned_with_its_layout(ctx, rule='view-storage-scanned-with-its-layout', scope=None):
+    """Every wrapper keeps the user's matrix as an Eigen::Ref / Map, and the property lets the user pass blocks, maps and
+    expressions.  A view shares the storage of its parent: the raw value / inner-index arrays of a sparse view START at the
+    parent's first entry, and the view's own entries are placed in them by its outer index array (an inner-panel block of a
+    compressed matrix is itself "compressed" and has nonZeros() of its own, yet its entries begin at outerIndexPtr()[0], not 0).
+    So a function that takes the raw arrays of a sparse VIEW (member of SparseMapBase: Ref, Map) must also consult
+    outerIndexPtr(); iterating with InnerIterator / coefficient-wise expressions needs nothing.  Zero instances on the tree
+    today; a positive and a negative control are matched on every run."""
+    n = 0
+    ctl = [0, 0]
+    for fn in list(ctx.C.functions) + list(ctx.F.concrete()):
+        control = fn.qname.startswith('SpectraControl::ViewStorageScan')
+        if not control and (not fn.qname.startswith('Spectra::') or (scope is not None and not scope(fn))):
+            continue
+        raws = [x for x in fn.walk() if x['k'] == 'CXXMemberCallExpr' and x.get('callee') in RAW_SPARSE and 'MapBase' in (x.get('cls') or '')]
+        if not control:
+            n += 1
+        if not raws:
+            continue
+        placed = any(x['k'] == 'CXXMemberCallExpr' and x.get('callee') == 'outerIndexPtr' for x in fn.walk())
+        if control:
+            ctl[1 if placed else 0] += 1
+            continue
+        inst = '%s::%s' % ((fn.cls or '').replace('Spectra::', ''), fn.name) if fn.cls else fn.name
+        ctx.check(placed, rule, inst, fn.qname,
+                  'raw arrays of a sparse view are placed by its outer index array' if placed else
+                  '`%s` takes the raw array of a sparse view (Ref / Map) at %s and never consults outerIndexPtr(): for a block view of a larger '
+                  'matrix the array is the PARENT\'s, so the scan reads the parent\'s leading entries instead of the view\'s' % (fn.s(raws[0]['id'])[:60], fn.loc(raws[0])))
+    if ctl != [1, 1]:
+        raise AnalysisBroken('view-storage rule: controls not matched exactly (flat %d, placed %d)' % tuple(ctl))
+    if n < 20:
+        raise AnalysisBroken('view-storage rule: only %d functions scanned' % n)
+    ctx.ok(rule, '<library>', '/repo/include/Spectra', 'no function takes the raw arrays of a sparse view without its outer index array (%d function bodies; controls 1/1)' % n)
+    return n
